@@ -795,6 +795,17 @@ class Analysis:
                 if f_ and f_[0] == "variant" and f_[1] == "None":
                     dirty = sorted(k[1] for k in st.misc if isinstance(k, tuple) and k and k[0] == "dirty")
                     self.events[body.defp].append((blk, "need-more", dirty, tuple(ctx), s["sp"]))
+                    if len(ctx) == 1:
+                        # what the caller's buffer holds when the entry function answers "nothing" (judged per path, where the answer is
+                        # built): a datagram reader (UdpFramed) treats `None` with bytes left as an error of the whole stream
+                        left = []
+                        for i_ in range(1, body.argc + 1):
+                            if not is_buf_ty(body.local_ty(i_)):
+                                continue
+                            o_ = st.obj.get((i_, ()))
+                            ln_ = st.len.get(o_) if o_ is not None else None
+                            left.append((i_, ln_ is not None and self.holds(st, Lin(0).sub(ln_)), str(ln_)))
+                        self.events[body.defp].append((blk, "none-leaves", left, tuple(ctx), s["sp"]))
 
             if ak in ("tuple", "adt", "closure", "coroutine"):
                 vname = rv.get("variant") if ak == "adt" else None
